@@ -4,7 +4,14 @@
 def extract_all():
     from . import claw
     claw.extract()
+    from . import beartables
+    beartables.extract()
     from . import gen
     gen.extract()
     from . import pyc
     pyc.extract()
+    from . import conf
+    try:
+        conf.extract()
+    except conf.ExtractError:
+        pass      # c17 falls back to the last good table and reports what differs
